@@ -2207,3 +2207,43 @@ def r12_18(rep):
                       "%s on the evaluated macro value: a constant bindgen does not model aborts the run" % ", ".join(sorted({w for _, w in bad})),
                       b.loc(bad[0][0]) if bad else b.loc(a["body"]))
     rep.need(n >= 2, "EvalResult arms in Var::parse")
+
+
+@RULES.rule("R12.19", "a `replaces=` replacement that is defined through the type it replaces is not applied", floor=1)
+def r12_19(rep):
+    """Replacing turns the replaced item into a reference to the replacement.  If the replacement is itself an alias of the replaced
+    type (`typedef int Orig; /** replaces="Orig" */ typedef Orig Replacement;`) the type then refers to itself, and the recursive
+    helpers that hop through aliases (`is_constified_enum_module`, `safe_canonical_type`, `layout`, …) never return: stack overflow
+    (exit 139) as soon as the type is used.  `process_replacements` is the only place that can create such a cycle, so it has to
+    test for it before recording the pair."""
+    prog = rep.prog
+    b = rep.need(prog.fn("ir::context::BindgenContext::process_replacements"), "BindgenContext::process_replacements")
+    pushes = [c for c in b.calls(lambda n: n["k"] == "MCall" and n["name"] == "push") if "Vec<(ir::context::TypeId, ir::context::TypeId)>" in (b.ty(c["recv"]) or "")]
+    rep.need(pushes, "the `replacements.push((id, replacement))` site")
+    # the loop variable that names the replaced item
+    for c in pushes:
+        ids = {x["id"] for x in b.walk(c["args"][0]) if x["k"] == "Local"}
+        ok = False
+        for pol, kind, g in b.guards(c):
+            if kind != "cond":
+                continue
+            todo = [(pol, strip(g))]
+            while todo:
+                pl, e = todo.pop()
+                if e.get("k") == "Unary" and e.get("op") == "!":
+                    todo.append((not pl, strip(e["e"])))
+                elif e.get("k") == "Binary" and e["op"] in ("&&", "||"):
+                    todo += [(pl, strip(e["l"])), (pl, strip(e["r"]))]
+                elif e.get("k") in ("Call", "MCall"):
+                    cal = str(e.get("resolved") or e.get("callee") or "")
+                    operands = ([e["recv"]] if e["k"] == "MCall" else []) + list(e.get("args", []))
+                    used = {x["id"] for o in operands for x in b.walk(o) if x["k"] == "Local"}
+                    fn = prog.fn(cal)
+                    if len(used & ids) >= 2 and fn is not None and not pl:
+                        # a negated test relating the two ids, implemented with a loop that follows aliases / type refs
+                        follows = any(n["k"] in ("Loop", "While") for n in fn.nodes) and \
+                            any("TypeKind::Alias" in str(v) for n in fn.nodes if n["k"] == "Match" for a in n["arms"] for v in pat_variants(a["pat"]))
+                        ok = ok or follows
+        rep.check(ok, "replacement-cycle-test", "a replacement whose alias chain leads back to the replaced item is skipped" if ok else
+                  "nothing checks that the replacement is not defined in terms of the replaced type: the type would refer to itself and every "
+                  "alias-following recursion overflows the stack", b.loc(c))
